@@ -102,6 +102,7 @@ class Analyzer:
         self.capped = False
         self.frees_param = frees_param_summaries(P)
         self.stores_param = stores_param_summaries(P)
+        self.fresh_out = fresh_out_summaries(P)
 
     # ---- state = tuple of Res (immutable by convention: always clone before change)
     def run(self):
@@ -157,6 +158,16 @@ class Analyzer:
                     if name in INIT_RETURNS_STATUS:
                         r.statusvar = self._status_dest(e)
                     state = [x for x in state if "&" + obj not in x.aliases] + [r]
+            if name in self.fresh_out:
+                # the callee hands a fresh block (or NULL) back through `&local`: the caller owns it now
+                for ai in sorted(self.fresh_out[name]):
+                    if ai < len(e.args()):
+                        obj = _addr_text(e.args()[ai])
+                        if obj is not None and _is_local_text(self.fn, obj) and "->" not in obj and "." not in obj:
+                            self.site_ids.add(e.i)
+                            r = Res(e, "heap", {obj}, {"free"})
+                            r.maybe_null = True
+                            state = self._kill_alias(state, obj, e, path, quiet=True) + [r]
             if name in self.all_release:
                 state = self.release(e, state, path)
             elif name in self.frees_param:
@@ -563,6 +574,50 @@ def stores_param_summaries(P):
             if base is not None and base.k == "DeclRefExpr" and base.get("dk") == "param" and "*" in (r.t or ""):
                 summ.setdefault(f.name, {})[names.index(r.name)] = names.index(base.name)
     _sp_cache[id(P)] = summ
+    return summ
+
+
+_fo_cache = {}
+
+
+def fresh_out_summaries(P):
+    """fn name -> set(param index): the function stores a block it has just allocated (malloc / calloc /
+    strdup, directly or through a local that only ever holds such a result) into `*param` and nowhere
+    else - an allocating helper with an out-parameter."""
+    if id(P) in _fo_cache:
+        return _fo_cache[id(P)]
+    summ = {}
+    for f in P.functions.values():
+        names = [p["n"] for p in f.params]
+        fresh_locals = {}
+        for n in f.body.walk():
+            if n.k == "DeclStmt":
+                for d, init in zip(n.get("decls", []), n.c):
+                    x = init.strip_casts() if init is not None else None
+                    if x is not None and x.k == "CallExpr" and x.callee in ACQ_PTR and x.callee != "realloc":
+                        fresh_locals[d.get("d")] = True
+            elif n.k == "BinaryOperator" and n.op == "=" and n.c[0].strip().k == "DeclRefExpr" and n.c[0].strip().get("dk") == "local":
+                x = n.c[1].strip_casts()
+                d = n.c[0].strip().get("d")
+                if x.k == "CallExpr" and x.callee in ACQ_PTR and x.callee != "realloc":
+                    fresh_locals.setdefault(d, True)
+                else:
+                    fresh_locals[d] = False
+        stores = {}
+        for n in f.body.walk():
+            if n.k == "BinaryOperator" and n.op == "=":
+                l = n.c[0].strip()
+                if l.k == "UnaryOperator" and l.op == "*" and l.c[0].strip_casts().k == "DeclRefExpr" and \
+                        l.c[0].strip_casts().get("dk") == "param":
+                    pn = l.c[0].strip_casts().name
+                    r = n.c[1].strip_casts()
+                    ok = (r.k == "CallExpr" and r.callee in ACQ_PTR and r.callee != "realloc") or \
+                        (r.k == "DeclRefExpr" and fresh_locals.get(r.get("d")) is True) or r.cv == 0
+                    stores.setdefault(pn, []).append((ok, r.cv == 0))
+        for pn, lst in stores.items():
+            if pn in names and all(ok for ok, _z in lst) and any(not z for _ok, z in lst):
+                summ.setdefault(f.name, set()).add(names.index(pn))
+    _fo_cache[id(P)] = summ
     return summ
 
 
